@@ -1288,7 +1288,9 @@ fn drill_emode_two_debt_liquidation(sim: &mut Sim, ctx: &mut Ctx) -> Option<Tx> 
     if xbank.emode.emode_tag == 0 {
         sim.apply(Event::Tx(Tx::one("emode_admin", ix::configure_bank_emode(g.key, g.admins.emode, x.keys.bank, tag, xbank.emode.emode_config.entries))));
     }
-    let lo = (am + 0.02, am + 0.10);
+    // half the time the lower entry lies wholly below the higher one (its maintenance weight is
+    // under the other's initial weight), so that a merge mixing the two would be incoherent
+    let lo = if ctx.rng.chance(1, 2) { (am + 0.02, am + 0.04) } else { (am + 0.02, am + 0.10) };
     let hi = (am + 0.06, am + 0.18);
     let (e1, e2) = if ctx.rng.chance(1, 2) { (lo, hi) } else { (hi, lo) };
     for (b, (wi, wm)) in [(&b1, e1), (&b2, e2)] {
